@@ -494,6 +494,42 @@ where
     })
 }
 
+
+/// Consume one lane (itself a double-ended iterator) from both ends following
+/// `pattern`, and return what it yielded in front-to-back order. Calls keep
+/// going after the first `None` so that an end that "comes back" is seen.
+fn consume_lane<I: DoubleEndedIterator>(mut it: I, pattern: usize, mut f: impl FnMut(I::Item) -> usize) -> Vec<usize> {
+    let mut front: Vec<usize> = Vec::new();
+    let mut back: Vec<usize> = Vec::new();
+    let mut nones = 0;
+    let mut step = 0usize;
+    // More calls than any lane in the generated layouts has elements.
+    while nones < 3 && step < 4096 {
+        let from_front = match pattern % 6 {
+            0 => true,
+            1 => step % 2 == 0,
+            2 => step % 2 == 1,
+            3 => false,
+            // Front until exhausted, then the back.
+            4 => nones == 0,
+            // One from the front, the rest from the back.
+            _ => step == 0,
+        };
+        step += 1;
+        let x = if from_front { it.next() } else { it.next_back() };
+        match x {
+            Some(x) => {
+                let o = f(x);
+                if from_front { front.push(o) } else { back.push(o) }
+            }
+            None => nones += 1,
+        }
+    }
+    back.reverse();
+    front.extend(back);
+    front
+}
+
 /// Build the view for `lay` through rten's public constructors and run `mode`.
 pub fn run_kind(kind: Kind, lay: &Lay, mode: &Mode) -> Outcome {
     let expected = expected_items(kind, lay);
@@ -561,9 +597,29 @@ pub fn run_kind(kind: Kind, lay: &Lay, mode: &Mode) -> Outcome {
         }
         match kind {
             Kind::Iter => go!(view.iter(), |x: &i32| vec![rd(x)]),
-            Kind::Lanes(dim) => go!(view.lanes(dim), |lane: rten_tensor::iterators::Lane<i32>| lane
-                .map(|x| rd(x))
-                .collect::<Vec<_>>()),
+            Kind::Lanes(dim) => match mode {
+                // Each lane is consumed with the next double-ended pattern.
+                Mode::History(steps) => {
+                    let lane_no = std::cell::Cell::new(0usize);
+                    let r = run_hist(
+                        view.lanes(dim),
+                        |lane: rten_tensor::iterators::Lane<i32>| {
+                            lane_no.set(lane_no.get() + 1);
+                            consume_lane(lane, lane_no.get(), |x| rd(x))
+                        },
+                        &expected,
+                        steps,
+                    );
+                    fin(&mut out, r)
+                }
+                Mode::Parallel(threads, variant) => {
+                    out.split = true;
+                    let norm = |lane: rten_tensor::iterators::Lane<i32>| lane.map(|x| rd(x)).collect::<Vec<_>>();
+                    if let Err(e) = par_check(view.lanes(dim).into_par_iter().map(norm), &expected, *variant, *threads) {
+                        out.result = Err(e);
+                    }
+                }
+            },
             Kind::InnerDyn(n) => go!(view.inner_iter_dyn(n), |v: TensorView<i32>| view_offsets(&v, rd)),
             Kind::InnerStatic(n) => match n {
                 1 => go!(view.inner_iter::<1>(), |v: NdTensorView<i32, 1>| view_offsets(&v, rd)),
@@ -607,6 +663,8 @@ pub fn run_kind(kind: Kind, lay: &Lay, mode: &Mode) -> Outcome {
                 }};
             }
             let slen = lay.storage_len;
+            let lane_no = std::cell::Cell::new(0usize);
+            let lane_no = &lane_no;
             let par_oob = std::sync::atomic::AtomicIsize::new(isize::MIN);
             let par_oob = &par_oob;
             // Parallel mode: stamp immediately, but only inside the allocation.
@@ -624,7 +682,10 @@ pub fn run_kind(kind: Kind, lay: &Lay, mode: &Mode) -> Outcome {
                 Kind::IterMut => go_mut!(view.iter_mut(), |x: &mut i32| vec![mon.take(x)], |x: &mut i32| vec![stamp(x)]),
                 Kind::LanesMut(dim) => go_mut!(
                     view.lanes_mut(dim),
-                    |lane: rten_tensor::iterators::LaneMut<i32>| lane.map(|x| mon.take(x)).collect::<Vec<_>>(),
+                    |lane: rten_tensor::iterators::LaneMut<i32>| {
+                        lane_no.set(lane_no.get() + 1);
+                        consume_lane(lane, lane_no.get(), |x| mon.take(x))
+                    },
                     |lane: rten_tensor::iterators::LaneMut<i32>| lane.map(|x| stamp(x)).collect::<Vec<_>>()
                 ),
                 Kind::InnerDynMut(n) => go_mut!(
